@@ -76,6 +76,10 @@ class C07Oracle(Oracle):
             v.append(f"C07:count:on_stop called {n} times")
         if n >= 1 and not w.mon.ever_connected:
             v.append("C07:count:on_stop called although the connection never reached CONNECTED")
+        if n == 0 and w.mon.ever_connected and not w.loop.busy() and w.transports and w.transports[-1].is_closing():
+            # whatever the state says: the session's transport is gone and nothing is left to run - the session has ended
+            v.append(f"C07:count:the established session's transport is closed and the loop is quiet, but the stop callback was never invoked "
+                     f"(state reads {w.state()})")
         return v
 
     def finish(self, w: LifeWorld) -> list[str]:
@@ -114,7 +118,7 @@ def factory(noise: bool, seed: str, sub_raises: str | None = None) -> LifeHarnes
     )
 
 
-SEEDS_PLAIN = ("opened", "hello_sent", "connected", "req_pending", "disc_pending", "pong_due")
+SEEDS_PLAIN = ("opened", "hello_sent", "connected", "req_pending", "disc_pending", "pong_due", "disc_gave_up")
 SEEDS_NOISE = ("hello_sent", "connected", "disc_pending")
 
 
@@ -211,7 +215,7 @@ def run(tier: str, seed: int) -> Result:
         for s in ("connected", "req_pending"):
             cfgs.append((False, s, 2 if tier == "quick" else 3, 1, exc))
     cfgs.append((True, "req_pending", 2 if tier == "quick" else 3, 1, "StopIteration"))
-    budget = 100.0 if tier == "quick" else 1500.0
+    budget = 240.0 if tier == "quick" else 2400.0
     t_end = time.monotonic() + budget
     per_cfg = []
     for i, cfg in enumerate(cfgs):
